@@ -100,3 +100,61 @@ func onceLeave(o *sync.Once) {
 	s.onceSlot(uintptr(unsafe.Pointer(o))).running = false
 	s.unlockGen++
 }
+
+// Cooperative sync.WaitGroup (rewritten from Add/Done/Wait calls): a side
+// counter tells Wait when it may call the real Wait without blocking; the real
+// methods still run, so the Done -> Wait happens-before edges are the real ones.
+
+//go:norace
+func (s *sim) wgSlot(wg *sync.WaitGroup) *wgState {
+	key := uintptr(unsafe.Pointer(wg))
+	for i := range s.wgTab {
+		if s.wgTab[i].key == key {
+			return &s.wgTab[i]
+		}
+	}
+	s.wgTab = append(s.wgTab, wgState{key: key})
+	return &s.wgTab[len(s.wgTab)-1]
+}
+
+//go:norace
+func wgCount(wg *sync.WaitGroup, delta int) (int, bool) {
+	s := cur
+	if s == nil {
+		return 0, false
+	}
+	st := s.wgSlot(wg)
+	st.n += delta
+	if delta < 0 && st.n <= 0 {
+		s.unlockGen++
+	}
+	return st.n, true
+}
+
+func WaitGroupAdd(wg *sync.WaitGroup, n int) {
+	wgCount(wg, n)
+	wg.Add(n)
+}
+
+func WaitGroupDone(wg *sync.WaitGroup) {
+	wgCount(wg, -1)
+	wg.Done()
+}
+
+func WaitGroupWait(wg *sync.WaitGroup, site string) {
+	Yield(site)
+	for {
+		n, attached := wgCount(wg, 0)
+		if !attached || n <= 0 || !inTask() {
+			break
+		}
+		Blocked(site)
+	}
+	wg.Wait()
+}
+
+//go:norace
+func inTask() bool {
+	s := cur
+	return s != nil && s.tasks != nil && s.turn >= 0
+}
